@@ -24,6 +24,7 @@ type Engine struct {
 	safetyAll  bool
 	verbose    bool
 	ginit      map[string]*Val
+	evMemo     map[*ssa.Function]bool
 }
 
 func loadEngine(repo string, patterns []string, preludeDir string, overlay map[string][]byte) (*Engine, error) {
